@@ -52,7 +52,7 @@ def describe(obj):
     if isinstance(obj, type):
         d["class"] = obj.__module__ + "." + obj.__qualname__
     if callable(obj) and hasattr(obj, "__name__"):
-        d["callable"] = getattr(obj, "__module__", "?") + "." + obj.__name__
+        d["callable"] = str(getattr(obj, "__module__", "?")) + "." + str(obj.__name__)
     return d
 
 
@@ -753,7 +753,383 @@ def hostile_family(tier, seed):
                           "crown_name": cname, "debug_trail": dt.name, "trace": traceback.format_exc()[-500:]})
 
 
-FAMILIES = {"loader": loader_family, "dumper": dumper_family, "literal": literal_family, "hostile": hostile_family}
+# ----------------------------------------------------------------------------------------------------------------
+# converters (C13): broaching plans -> expression; converter template
+
+def broach_family(tier, seed):
+    from decimal import Decimal
+    from inspect import Parameter, Signature
+
+    from adaptix._internal.code_tools.name_sanitizer import BuiltinNameSanitizer
+    from adaptix._internal.conversion.broaching.code_generator import BuiltinBroachingCodeGenerator
+    from adaptix._internal.conversion.broaching.definitions import (
+        AccessorElement, ConstantElement, FunctionElement, KeywordArg, ParameterElement, PositionalArg, UnpackIterable,
+        UnpackMapping,
+    )
+    from adaptix._internal.model_tools.definitions import create_attr_accessor, create_key_accessor, Accessor
+    from adaptix._internal.special_cases_optimization import as_is_stub, as_is_stub_with_ctx
+
+    tag(as_is_stub, "as_is_stub")
+    tag(as_is_stub_with_ctx, "as_is_stub_with_ctx")
+    funcs = {}
+
+    def mkfunc(name, pyname=None):
+        def f(*a, **kw):
+            raise AssertionError
+        f.__name__ = pyname or name
+        tag(f, "func:" + name)
+        _KEEP.append(f)
+        funcs[name] = f
+        return f
+
+    class NoNameCallable:
+        def __call__(self, *a, **kw):
+            raise AssertionError
+    nn = NoNameCallable()
+    tag(nn, "func:noname")
+
+    def getter(obj):
+        raise AssertionError
+    tag(getter, "getter:custom")
+
+    class CustomAccessor(Accessor):
+        @property
+        def getter(self):
+            return getter
+
+        @property
+        def access_error(self):
+            return None
+
+        @property
+        def trail_element(self):
+            return "custom"
+
+        def __hash__(self):
+            return 1
+
+        def __eq__(self, other):
+            return self is other
+
+    dec = Decimal("1")
+    tag(dec, "const:decimal")
+    objc = object()
+    tag(objc, "const:object")
+
+    def J(el):
+        """json description of a plan"""
+        if isinstance(el, ParameterElement):
+            return {"k": "param", "name": el.name}
+        if isinstance(el, ConstantElement):
+            return {"k": "const", "value": encode_value(el.value), "tag": TAGS.get(id(el.value))}
+        if isinstance(el, FunctionElement):
+            args = []
+            for a in el.args:
+                kind = type(a).__name__
+                args.append({"kind": kind, "key": getattr(a, "key", None), "el": J(a.element)})
+            return {"k": "func", "tag": TAGS.get(id(el.func)), "args": args}
+        if isinstance(el, AccessorElement):
+            acc = el.accessor
+            d = {"k": "acc", "target": J(el.target)}
+            if isinstance(acc, CustomAccessor):
+                d.update(acc="getter", tag="getter:custom")
+            elif hasattr(acc, "attr_name"):
+                d.update(acc="attr", name=acc.attr_name)
+            else:
+                d.update(acc="item", key=encode_value(acc.key))
+            return d
+        raise TypeError(el)
+
+    data, ctx = ParameterElement("data"), ParameterElement("ctx")
+    leaves = [
+        data, ctx,
+        ConstantElement(1), ConstantElement("x'y"), ConstantElement(None), ConstantElement(True), ConstantElement(dec),
+        ConstantElement(objc), ConstantElement(()), ConstantElement([]),
+        AccessorElement(data, create_attr_accessor("a", is_required=True)),
+        AccessorElement(data, create_attr_accessor("not-ident", is_required=True)),
+        AccessorElement(data, create_key_accessor("k'q", access_error=KeyError)),
+        AccessorElement(data, create_key_accessor("class", access_error=KeyError)),
+        AccessorElement(ctx, create_key_accessor(0, access_error=None)),
+        AccessorElement(ctx, create_key_accessor(1, access_error=None)),
+        AccessorElement(data, CustomAccessor()),
+    ]
+    nested_acc = AccessorElement(AccessorElement(data, create_attr_accessor("inner", is_required=True)),
+                                 create_attr_accessor("leaf", is_required=True))
+    # NOTE: an accessor whose target is another accessor is legal for the BroachingPlan type but no builtin planner builds
+    # one (ModelCoercerProvider only emits AccessorElement(ParameterElement, ..)); it is rendered as "return \n data.a.b"
+    # (returns None) today -- outside C13, recorded in DESIGN.md as an observation, not enumerated here.
+    del nested_acc
+    plans = []
+    coer = mkfunc("coercer_a", "coercer")
+    coer2 = mkfunc("coercer_b", "coercer")          # same __name__: mangling must keep them apart
+    ctor = mkfunc("constructor", "Model")
+    kwf = mkfunc("linked", "data")                  # __name__ collides with a parameter of the closure
+    fact = mkfunc("factory", "factory")
+    # depth 1: every leaf alone
+    plans += leaves
+    # depth 2: field coercions coercer(leaf, ctx)
+    lvl2 = [FunctionElement(func=coer, args=(PositionalArg(l), PositionalArg(ctx))) for l in leaves]
+    lvl2 += [FunctionElement(func=as_is_stub_with_ctx, args=(PositionalArg(l), PositionalArg(ctx))) for l in leaves[:6]]
+    lvl2 += [FunctionElement(func=as_is_stub, args=(PositionalArg(leaves[10]),))]
+    lvl2 += [FunctionElement(func=fact, args=()), FunctionElement(func=list, args=()), FunctionElement(func=dict, args=()),
+             FunctionElement(func=nn, args=(PositionalArg(data),))]
+    plans += lvl2
+    # depth 3: constructor calls mixing positional / keyword (incl. python keywords) / unpack
+    import random
+    rnd = random.Random(seed)
+    combos = []
+    pool = lvl2 + leaves
+    n_ctor = 70 if tier == "quick" else 500
+    for _ in range(n_ctor):
+        k = rnd.randint(1, 5)
+        els = [rnd.choice(pool) for _ in range(k)]
+        n_pos = rnd.randint(0, k)
+        args = [PositionalArg(e) for e in els[:n_pos]]
+        keys = rnd.sample(["a", "b", "class", "data", "ctx", "from", "x_1", "zz"], k - n_pos)
+        args += [KeywordArg(key, e) for key, e in zip(keys, els[n_pos:])]
+        combos.append(FunctionElement(func=ctor, args=tuple(args)))
+    combos.append(FunctionElement(func=ctor, args=(UnpackIterable(leaves[10]), UnpackMapping(leaves[12]))))
+    combos.append(FunctionElement(func=ctor, args=(PositionalArg(FunctionElement(func=coer, args=(PositionalArg(leaves[10]), PositionalArg(ctx)))),
+                                                   KeywordArg("b", FunctionElement(func=coer2, args=(PositionalArg(leaves[12]), PositionalArg(ctx)))),
+                                                   KeywordArg("c", FunctionElement(func=kwf, args=(PositionalArg(data),
+                                                                                                    KeywordArg("q", leaves[14])))))))
+    # function linking nested in constructor: ctor(f(data, kw=coercer(data.a, ctx)), b=coercer(ctx[1], ctx))
+    combos.append(FunctionElement(func=ctor, args=(
+        PositionalArg(FunctionElement(func=kwf, args=(PositionalArg(data), KeywordArg("kw", lvl2[10])))),
+        KeywordArg("b", FunctionElement(func=coer, args=(PositionalArg(leaves[15]), PositionalArg(ctx)))))))
+    plans += combos
+    sig = Signature(parameters=[Parameter("data", Parameter.POSITIONAL_ONLY), Parameter("ctx", Parameter.POSITIONAL_ONLY)])
+    for i, plan in enumerate(plans):
+        try:
+            gen = BuiltinBroachingCodeGenerator(plan=plan, name_sanitizer=BuiltinNameSanitizer())
+            src, ns = gen.produce_code(signature=sig, closure_name="coerce_A_to_B")
+            emit({"kind": "broach", "idx": i, "plan": J(plan), "source": src, "origins": take_origins(src),
+                  "namespace": {k: describe(v) for k, v in ns.items()}})
+        except Exception as e:
+            emit({"kind": "broach", "idx": i, "plan": J(plan), "error": f"{type(e).__name__}: {e}",
+                  "trace": traceback.format_exc()[-500:]})
+
+
+def converter_family(tier, seed):
+    from inspect import Parameter, Signature
+
+    from adaptix._internal.conversion.converter_provider import BuiltinConverterProvider
+
+    def coercer(data, ctx):
+        raise AssertionError
+    tag(coercer, "coercer")
+
+    def stub(a, b=1):
+        raise AssertionError
+    tag(stub, "stub")
+    dflt = object()
+    tag(dflt, "default:object")
+    K = Parameter
+    sigs = {
+        "one": [("src", K.POSITIONAL_OR_KEYWORD, K.empty)],
+        "one_posonly": [("src", K.POSITIONAL_ONLY, K.empty)],
+        "two": [("src", K.POSITIONAL_OR_KEYWORD, K.empty), ("extra", K.POSITIONAL_OR_KEYWORD, K.empty)],
+        "three": [("src", K.POSITIONAL_OR_KEYWORD, K.empty), ("p1", K.POSITIONAL_OR_KEYWORD, K.empty), ("p2", K.KEYWORD_ONLY, K.empty)],
+        "defaults": [("src", K.POSITIONAL_OR_KEYWORD, K.empty), ("p1", K.POSITIONAL_OR_KEYWORD, 5), ("p2", K.KEYWORD_ONLY, dflt)],
+        "clash": [("coercer", K.POSITIONAL_OR_KEYWORD, K.empty), ("default_p", K.POSITIONAL_OR_KEYWORD, K.empty), ("p", K.KEYWORD_ONLY, "s")],
+        "four": [("src", K.POSITIONAL_ONLY, K.empty), ("a", K.POSITIONAL_OR_KEYWORD, K.empty), ("b", K.POSITIONAL_OR_KEYWORD, K.empty),
+                 ("c", K.KEYWORD_ONLY, None)],
+    }
+    prov = BuiltinConverterProvider()
+    for sname, ps in sigs.items():
+        sig = Signature(parameters=[Parameter(n, k, default=d, annotation=int) for n, k, d in ps], return_annotation=str)
+        for st in (None, stub):
+            for fname in ("convert", "coercer", ps[0][0]):
+                try:
+                    closure_name = prov._name_sanitizer.sanitize(fname) or "converter"
+                    src, ns = prov._produce_code(signature=sig, stub_function=st, closure_name=closure_name,
+                                                 function_name=fname, coercer=coercer)
+                    emit({"kind": "converter", "sig": sname, "params": [[n, str(k), encode_value(d) if d is not K.empty else None,
+                                                                        TAGS.get(id(d))] for n, k, d in ps],
+                          "stub": st is not None, "function_name": fname, "closure_name": closure_name, "source": src,
+                          "origins": take_origins(src), "namespace": {k: describe(v) for k, v in ns.items()}})
+                except Exception as e:
+                    emit({"kind": "converter", "sig": sname, "function_name": fname, "stub": st is not None,
+                          "error": f"{type(e).__name__}: {e}", "trace": traceback.format_exc()[-500:]})
+
+
+def convpipe_family(tier, seed):
+    """whole converter compilation pipeline (recipe resolution, linking, planning, code generation) on enumerated pairs of
+    dataclass models, extra parameters and conversion recipes; the emitted sources are collected by CodeGenAccumulator.
+    No converter is called."""
+    import dataclasses
+    import random
+    from inspect import Parameter, Signature
+
+    from adaptix import P
+    from adaptix._internal.conversion.facade.provider import (
+        allow_unlinked_optional, from_param, link, link_constant, link_function,
+    )
+    from adaptix._internal.conversion.facade.retort import ConversionRetort
+    from adaptix._internal.morphing.model.basic_gen import CodeGenAccumulator
+
+    def user_coercer(x):
+        raise AssertionError
+    tag(user_coercer, "user_coercer")
+
+    rnd = random.Random(seed)
+    NAMES = ["a", "b", "c", "x"]
+
+    def make_models(cfg, uid):
+        ns = {}
+        inner = cfg.get("inner")
+        if inner:
+            SrcInner = dataclasses.make_dataclass(f"SrcInner", [(n, int) for n in inner["src_fields"]])
+            DstInner = dataclasses.make_dataclass(f"DstInner", [(n, int) if not opt else (n, int, dataclasses.field(default=0))
+                                                                for n, opt in inner["dst_fields"]])
+            ns["SrcInner"], ns["DstInner"] = SrcInner, DstInner
+        sf = [(n, int) for n in cfg["src_fields"]]
+        df = [(n, int) if not opt else (n, int, dataclasses.field(default=0)) for n, opt in cfg["dst_fields"]]
+        if inner:
+            sf.append(("n", ns["SrcInner"]))
+            # a required field may not follow one with a default: put the nested model first
+            df.insert(0, ("n", ns["DstInner"]))
+        ns["Src"] = dataclasses.make_dataclass("Src", sf)
+        ns["Dst"] = dataclasses.make_dataclass("Dst", df)
+        return ns
+
+    def build_recipe(cfg, ns):
+        out = []
+        funcs = {}
+        for i, it in enumerate(cfg["recipe"]):
+            k = it["k"]
+            lvl = ns["DstInner"] if it.get("level") == "inner" else ns["Dst"]
+            if k == "link":
+                out.append(link(it["src"], P[lvl][it["dst"]], coercer=user_coercer if it.get("coercer") else None))
+            elif k == "link_re":
+                out.append(link("(" + "|".join(it["alts"]) + ")", P[lvl][it["dst"]]))
+            elif k == "link_typed":
+                src_m = ns["SrcInner"] if it.get("level") == "inner" else ns["Src"]
+                out.append(link(P[src_m][it["src"]], P[lvl][it["dst"]]))
+            elif k == "link_param":
+                out.append(link(from_param(it["param"]), P[lvl][it["dst"]]))
+            elif k == "const":
+                out.append(link_constant(P[lvl][it["dst"]], value=it["value"]))
+            elif k == "const_factory":
+                def fac():
+                    raise AssertionError
+                tag(fac, f"factory:{i}")
+                _KEEP.append(fac)
+                out.append(link_constant(P[lvl][it["dst"]], factory=fac))
+            elif k == "func":
+                params = ["model"] + list(it["pos"]) + (["*"] if it["kwonly"] else []) + list(it["kwonly"])
+                src = f"def linked_{i}({', '.join(p + ': int' if p not in ('*', 'model') else p for p in params)}) -> int:\n    raise AssertionError\n"
+                loc = {}
+                exec(src, {}, loc)     # defines a stub that is never called
+                f = loc[f"linked_{i}"]
+                tag(f, f"linked:{i}")
+                _KEEP.append(f)
+                out.append(link_function(f, P[lvl][it["dst"]]))
+            elif k == "allow":
+                out.append(allow_unlinked_optional(P[lvl][it["dst"]]))
+        return out
+
+    def gen_cfg():
+        n_src = rnd.randint(1, 4)
+        src_fields = rnd.sample(NAMES, n_src)
+        n_dst = rnd.randint(1, 3)
+        dst_names = rnd.sample(["a", "b", "c"], n_dst)
+        req = [(n, False) for n in dst_names]
+        opt = [("d", True)] if rnd.random() < 0.4 else []
+        cfg = {"src_fields": src_fields, "dst_fields": req + opt, "params": [], "recipe": []}
+        if rnd.random() < 0.35:
+            cfg["inner"] = {"src_fields": rnd.sample(["a", "p", "q"], rnd.randint(1, 3)),
+                            "dst_fields": [(n, False) for n in rnd.sample(["a", "p"], rnd.randint(1, 2))]}
+        n_par = rnd.choice([0, 0, 1, 1, 2, 3])
+        cfg["params"] = rnd.sample(["a", "b", "c", "p", "extra", "x"], n_par)
+        items = []
+        for _ in range(rnd.choice([0, 1, 1, 2, 3])):
+            kind = rnd.choice(["link", "link", "link_typed", "link_param", "const", "const_factory", "func", "allow", "link_coercer",
+                               "link_re", "link_re"])
+            level = "inner" if cfg.get("inner") and rnd.random() < 0.4 else "top"
+            dsts = [n for n, _ in (cfg["inner"]["dst_fields"] if level == "inner" else cfg["dst_fields"])]
+            dst = rnd.choice(dsts)
+            if kind in ("link", "link_coercer"):
+                items.append({"k": "link", "src": rnd.choice(NAMES + ["p", "extra"]), "dst": dst, "level": level,
+                              "coercer": kind == "link_coercer"})
+            elif kind == "link_re":
+                items.append({"k": "link_re", "alts": rnd.sample(NAMES + ["p", "q", "extra"], rnd.randint(2, 4)), "dst": dst, "level": level})
+            elif kind == "link_typed":
+                pool = cfg["inner"]["src_fields"] if level == "inner" else cfg["src_fields"]
+                items.append({"k": "link_typed", "src": rnd.choice(pool), "dst": dst, "level": level})
+            elif kind == "link_param":
+                items.append({"k": "link_param", "param": rnd.choice(cfg["params"] or ["extra"]), "dst": dst, "level": level})
+            elif kind == "const":
+                items.append({"k": "const", "dst": dst, "value": rnd.choice([5, "s", None, True]), "level": level})
+            elif kind == "const_factory":
+                items.append({"k": "const_factory", "dst": dst, "level": level})
+            elif kind == "func":
+                pool = cfg["inner"]["src_fields"] if level == "inner" else cfg["src_fields"]
+                kwonly = rnd.sample(pool, rnd.randint(0, min(2, len(pool))))
+                pos = rnd.sample([p for p in cfg["params"] if p not in kwonly], rnd.randint(0, min(1, len([p for p in cfg["params"] if p not in kwonly]))))
+                items.append({"k": "func", "dst": dst, "kwonly": kwonly, "pos": pos, "level": level})
+            elif kind == "allow":
+                items.append({"k": "allow", "dst": "d", "level": "top"})
+        cfg["recipe"] = items
+        return cfg
+
+    fixed = [
+        {"src_fields": ["a", "b"], "dst_fields": [("a", False), ("b", False)], "params": [], "recipe": []},
+        {"src_fields": ["a", "b"], "dst_fields": [("a", False), ("b", False)], "params": ["b"], "recipe": []},
+        {"src_fields": ["a"], "dst_fields": [("a", False), ("b", False)], "params": ["b", "b2"], "recipe": []},
+        {"src_fields": ["a", "x"], "dst_fields": [("a", False)], "params": ["x"], "recipe": [{"k": "link", "src": "x", "dst": "a", "level": "top"}]},
+        {"src_fields": ["a"], "dst_fields": [("a", False)], "params": ["p"], "inner": {"src_fields": ["a"], "dst_fields": [("a", False), ("p", False)]},
+         "recipe": [{"k": "link_param", "param": "p", "dst": "p", "level": "inner"}]},
+        {"src_fields": ["a"], "dst_fields": [("a", False)], "params": ["p"], "inner": {"src_fields": ["a"], "dst_fields": [("a", False), ("p", False)]},
+         "recipe": []},
+        {"src_fields": ["a"], "dst_fields": [("a", False), ("d", True)], "params": [], "recipe": [{"k": "allow", "dst": "d", "level": "top"}]},
+        {"src_fields": ["a"], "dst_fields": [("a", False), ("d", True)], "params": [], "recipe": []},
+        {"src_fields": ["a", "b"], "dst_fields": [("a", False), ("c", False)], "params": ["extra"],
+         "recipe": [{"k": "func", "dst": "c", "kwonly": ["a", "b"], "pos": ["extra"], "level": "top"}]},
+        {"src_fields": ["a", "b"], "dst_fields": [("a", False), ("c", False)], "params": [],
+         "recipe": [{"k": "const", "dst": "c", "value": 5, "level": "top"}, {"k": "link", "src": "b", "dst": "c", "level": "top"}]},
+        {"src_fields": ["a", "b"], "dst_fields": [("a", False), ("c", False)], "params": [],
+         "recipe": [{"k": "link", "src": "b", "dst": "c", "level": "top"}, {"k": "const", "dst": "c", "value": 5, "level": "top"}]},
+        {"src_fields": ["a", "b"], "dst_fields": [("a", False), ("c", False)], "params": [],
+         "recipe": [{"k": "link", "src": "zz", "dst": "c", "level": "top"}, {"k": "const", "dst": "c", "value": 5, "level": "top"}]},
+    ]
+    fixed += [
+        {"src_fields": ["q"], "dst_fields": [("a", False)], "params": ["b", "c", "x"],
+         "recipe": [{"k": "link_re", "alts": ["b", "c", "x"], "dst": "a", "level": "top"}]},
+        {"src_fields": ["x", "b"], "dst_fields": [("a", False)], "params": ["c"],
+         "recipe": [{"k": "link_re", "alts": ["b", "c", "x"], "dst": "a", "level": "top"}]},
+        {"src_fields": ["a"], "dst_fields": [("a", False)], "params": ["p", "q"], "inner": {"src_fields": ["a"], "dst_fields": [("a", False), ("p", False)]},
+         "recipe": [{"k": "link_re", "alts": ["p", "q"], "dst": "p", "level": "inner"}]},
+    ]
+    n_rand = 150 if tier == "quick" else 1500
+    cfgs = fixed + [gen_cfg() for _ in range(n_rand)]
+    for idx, cfg in enumerate(cfgs):
+        # the second parameter list entry "b2" style names: keep as is
+        try:
+            ns = make_models(cfg, idx)
+            acc = CodeGenAccumulator()
+            retort = ConversionRetort(recipe=[*build_recipe(cfg, ns), acc])
+            params = [Parameter("src", Parameter.POSITIONAL_OR_KEYWORD, annotation=ns["Src"])] + \
+                     [Parameter(pn, Parameter.POSITIONAL_OR_KEYWORD, annotation=int) for pn in cfg["params"]]
+            sig = Signature(parameters=params, return_annotation=ns["Dst"])
+            try:
+                retort._produce_converter(signature=sig, stub_function=None, function_name="conv")
+                err = None
+            except Exception as e:      # creation refused (unlinked field ...): a legal outcome the oracle predicts as well
+                err = f"{type(e).__name__}"
+            closures = []
+            for request, data in acc.list:
+                tp = request.last_loc.type
+                closures.append({"dst": getattr(tp, "__name__", str(tp)), "source": data.source,
+                                 "namespace": {k: describe(v) for k, v in data.namespace.items() if not k.startswith("__")}})
+            emit({"kind": "convpipe", "idx": idx, "cfg": cfg, "error": err, "closures": closures})
+        except Exception as e:
+            emit({"kind": "convpipe", "idx": idx, "cfg": cfg, "harness_error": f"{type(e).__name__}: {e}",
+                  "trace": traceback.format_exc()[-600:]})
+
+
+FAMILIES = {"loader": loader_family, "dumper": dumper_family, "literal": literal_family, "hostile": hostile_family,
+            "broach": broach_family, "converter": converter_family, "convpipe": convpipe_family}
 
 
 def main():
